@@ -448,8 +448,10 @@ func replayOnce(P *Program, r *Result, cand int) (note, suffix string) {
 		return info.Verdict, "no-failing-input-found"
 	}
 	if panicked {
-		info.Verdict = "the real function panics on the solver's input (obligation class " + r.Class + ")"
-		return info.Verdict, ""
+		// a panic is not what a non-safety obligation is about, and it may come from an input the harness
+		// could only build in part (elements of pointer or interface type are left nil): not a reproduction
+		info.Verdict = "the real function panics on the input the replay could build from the solver's model; for an obligation of class " + r.Class + " that is not a reproduction (elements the model leaves open are nil in the replay)"
+		return info.Verdict, "no-failing-input-found"
 	}
 	if r.Class != "ensures" || r.ev == nil || r.ev.RetVals == nil || len(instNames) > 0 {
 		info.Verdict = "ran without panic; obligation class " + r.Class + " is not observable from the outputs"
